@@ -201,6 +201,24 @@ def _split_disjunctive_guards(tree: ast.Module) -> None:
             n.body = conv(n.body)
 
 
+def _normalise_empty_containers(tree: ast.Module) -> None:
+    """`list()`, `dict()` and `tuple()` without arguments are the empty displays `[]`, `{}` and `()` (unless the module
+    rebinds those names)."""
+    rebound = {n.id for n in ast.walk(tree) if isinstance(n, ast.Name) and isinstance(n.ctx, ast.Store) and n.id in ("list", "dict", "tuple")}
+    rebound |= {a.arg for n in ast.walk(tree) if isinstance(n, (ast.FunctionDef, ast.AsyncFunctionDef, ast.Lambda)) for a in n.args.args + n.args.kwonlyargs if a.arg in ("list", "dict", "tuple")}
+
+    class R(ast.NodeTransformer):
+        def visit_Call(self, node):
+            self.generic_visit(node)
+            if isinstance(node.func, ast.Name) and node.func.id in ("list", "dict", "tuple") and node.func.id not in rebound and not node.args and not node.keywords:
+                new = {"list": ast.List(elts=[], ctx=ast.Load()), "dict": ast.Dict(keys=[], values=[]), "tuple": ast.Tuple(elts=[], ctx=ast.Load())}[node.func.id]
+                ast.copy_location(new, node)
+                new.end_lineno, new.end_col_offset = getattr(node, "end_lineno", None), getattr(node, "end_col_offset", None)
+                return new
+            return node
+    R().visit(tree)
+
+
 def _normalise_local_annotations(tree: ast.Module) -> None:
     """Inside function bodies, `x: T = v` is the same statement as `x = v` for every rule
     here: rewrite it to an Assign (the annotation is kept in `.ann`), so that adding or
@@ -373,6 +391,7 @@ class Index:
                 except SyntaxError as e:
                     raise AnalysisError(f"cannot parse {path}: {e}") from e
                 _normalise_local_annotations(tree)
+                _normalise_empty_containers(tree)
                 _normalise_namespace_aliases(tree)
                 _normalise_returned_temps(tree)
                 _normalise_nested_ifs(tree)
